@@ -880,6 +880,17 @@ pub assume_specification<T, U, D, F>[ core::option::Option::<T>::map_or_else ](o
 
 // @section reader_exact
 impl AseReader {
+    /// AseReader::read_bytes(count) (`take(count).read_to_end(..)` + length check; the buffer grows with the bytes that
+    /// arrive - nothing is reserved from the declared size): same ASSUMED reader contract as the primitives.
+    /// Kani cannot execute std's read_to_end symbolically (CBMC runs out of memory on a 4-byte cursor), so for this
+    /// one primitive the contract is exercised only by the bounded obligations x_truncation / x_readers / x_total_load
+    #[verifier::external_body]
+    pub fn read_bytes(&mut self, count: usize) -> (r: Result<Vec<u8>>)
+        ensures final(self).data() == old(self).data(), 0 <= old(self).pos() <= old(self).data().len(),
+            r is Ok <==> old(self).pos() + count <= old(self).data().len(),
+            r is Ok ==> r->Ok_0@ == old(self).data().subrange(old(self).pos(), old(self).pos() + count)
+                && final(self).pos() == old(self).pos() + count,
+    { unimplemented!() }
     /// AseReader::read_exact(&mut [u8]) (std::io::Read::read_exact on the cursor; the call site passes `&mut Vec<u8>`):
     /// fills the whole buffer with the next bytes or fails; same ASSUMED reader contract as the primitives
     #[verifier::external_body]
